@@ -20,6 +20,12 @@ impl<S: Storage> DeleteExecutor<S> {
     pub async fn execute(self, child: BoxedExecutor) {
         let table = self.storage.get_table(self.table_id)?;
         let mut txn = table.update().await?;
+        // the table's deletion lock is held from here on
+        #[cfg(risinglight_verif)]
+        {
+            let detail = self.table_id.table_id.to_string();
+            crate::verif::point("txn.locked", &detail).await;
+        }
         let mut cnt = 0;
         #[for_await]
         for chunk in child {
